@@ -225,7 +225,7 @@ class Ctx:
         equiv = {"unique_values": "Proofs/GenEquivUV", "data_preparation": "Proofs/GenEquivDP", "main_loop": "Proofs/GenEquivML",
                  "cluster_label_assignment": "Proofs/GenEquivLA", "solver": "Proofs/GenEquivSV", "cluster_metrics": "Proofs/GenEquivCM",
                  "solver_loop": "Proofs/GenEquivSL", "likelihood": "Proofs/GenEquivLK", "main_loop_results": "Proofs/GenEquivMR",
-                 "front_single": "Proofs/GenEquivFE", "front_joint": "Proofs/GenEquivFE", "main_loop_suffix": "Proofs/GenEquivRS",
+                 "front_single": "Proofs/GenEquivFE", "front_joint": "Proofs/GenEquivFE", "main_loop_suffix": "Proofs/GenEquivRS", "main_loop_full": "Proofs/GenEquivMF",
                  "cm_repopulate": "Proofs/GenEquivPH", "cm_update_all": "Proofs/GenEquivPH", "la_predict": "Proofs/GenEquivPH",
                  "ll_point": "Proofs/GenEquivLW", "ll_table": "Proofs/GenEquivLW", "gl_stats": "Proofs/GenEquivLW", "la_initial": "Proofs/GenEquivLW",
                  "cm_ranked": "Proofs/GenEquivAR", "ua_shallow": "Proofs/GenEquivAR", "ua_deep": "Proofs/GenEquivAR", "aa_shallow": "Proofs/GenEquivAR", "aa_deep": "Proofs/GenEquivAR",
